@@ -16,7 +16,7 @@ for d in sorted(glob.glob(os.path.join(HERE, "seeded", "*"))):
         continue
     m = json.load(open(mp))
     name = os.path.basename(d)
-    idx = int(name.split("_s")[1]) - 1 if "_s" in name else 0
+    idx = int(name[-1]) - 1 if name[-1].isdigit() else 0
     am = (m.get("author_meta") or {}).get("changes") or []
     what = needs = ""
     if idx < len(am):
@@ -33,6 +33,10 @@ for d in sorted(glob.glob(os.path.join(HERE, "seeded", "*"))):
         now = "caught: " + "; ".join("`%s`" % x for x in fin.get("mechanisms", [])[:2])
     else:
         now = "**missed** (%s)" % fin.get("last", fin.get("note", ""))[:60]
+    if m.get("neutralised"):
+        now = "no longer a break: " + m["neutralised"][:160]
+    if m.get("rebased"):
+        now += " (patch rebased onto a later fix)"
     clean = lambda t: t.replace("|", "/").replace("\n", " ")
     rows.append("| %s | %s | %s | %s | %s | %s |" % (name, m.get("property"), clean(what), clean(needs), first_txt, now))
 seeded = "\n".join(rows)
